@@ -197,6 +197,72 @@ func ruleLayerOrder(c *Ctx, r *Reporter) {
 		}
 	}
 
+	// (ii) layers leave the read path only towards the flush path: a function that resets MemTablePool.immutables must hand
+	// the old slice to its caller, and every caller must pass it on to flushMemTable or to the manager's flush queue
+	r.Rule("layers-leave-only-to-be-flushed", 1)
+	for _, fn := range c.KevoFns {
+		if ctorOnly[topParent(fn)] || fn.Parent() != nil {
+			continue
+		}
+		var resets []*ssa.Store
+		AllInstrs(fn, false, func(_ *ssa.Function, ins ssa.Instruction) {
+			st, ok := ins.(*ssa.Store)
+			if !ok || fieldVarOf(st.Addr) != immF {
+				return
+			}
+			if fa, ok := st.Addr.(*ssa.FieldAddr); ok {
+				if _, lit := fa.X.(*ssa.Alloc); lit {
+					return
+				}
+			}
+			switch v := st.Val.(type) {
+			case *ssa.MakeSlice:
+				resets = append(resets, st)
+			case *ssa.Slice:
+				if isLoadOfField(v.X, immF) {
+					resets = append(resets, st)
+				}
+			case *ssa.Const:
+				resets = append(resets, st)
+			}
+		})
+		if len(resets) == 0 {
+			continue
+		}
+		name := FnName(fn)
+		// hands the old slice over?
+		hands := len(Returns(fn)) > 0
+		for _, ret := range Returns(fn) {
+			if len(ret.Results) != 1 || !isLoadOfField(resolveLoad(ReturnValue(ret, 0)), immF) {
+				hands = false
+			}
+		}
+		if !hands {
+			live := false
+			for _, e := range c.Callers(fn) {
+				if c.InKevo(e.Caller.Func) {
+					live = true
+				}
+			}
+			r.Check(!live, name+":drops-layers", c.InsPos(resets[0]), "no live caller", "immutable memtables are removed from the read path without being handed to anyone: their data is unreadable until (unless) an SSTable holds it")
+			continue
+		}
+		nCallers := 0
+		for _, e := range c.Callers(fn) {
+			if !c.InKevo(e.Caller.Func) || e.Site == nil {
+				continue
+			}
+			nCallers++
+			v, _ := e.Site.(ssa.Value)
+			ok := v != nil && flowsToFlush(c, v, a, 0, map[ssa.Value]bool{})
+			r.Check(ok, name+"<-"+FnName(topParent(e.Caller.Func)), c.InsPos(e.Site), "the memtables taken out of the pool are passed on to the flush path",
+				"immutable memtables are taken out of the pool (and so out of the read path) and the result is not passed to flushMemTable or the flush queue: data that is in no SSTable yet becomes unreadable")
+		}
+		if nCallers == 0 {
+			r.OK(name+":callers", c.FnPos(fn), "hands the old slice to its caller; no live caller (flushed memtables stay in the pool)")
+		}
+	}
+
 	r.Rule("layer-order", 6)
 	// MemTablePool.Get: active first, immutables descending, first hit returns
 	checkLookup := func(fn *ssa.Function, firstSet FnSet, firstWhat string, fv *types.Var, hitIs func(ssa.Instruction) bool) {
@@ -461,4 +527,52 @@ func ruleSourceOrder(c *Ctx, r *Reporter) {
 	// the list is handed to the hierarchical merge unchanged
 	newHier := c.Func("pkg/common/iterator/composite", "", "NewHierarchicalIterator")
 	r.Check(newHier != nil && len(c.CallsIn(fac, NewFnSet(newHier), false)) == 1, "iterator.Factory.createBaseIterator:merge", c.FnPos(fac), "sources are merged by the hierarchical (newest-first) iterator", "the source list is no longer merged by composite.NewHierarchicalIterator")
+}
+
+// flowsToFlush: the slice value reaches an argument of flushMemTable or a store into Manager.immutableMTs
+// (through range/index/slicing/append/phi).
+func flowsToFlush(c *Ctx, v ssa.Value, a *stAnchors, d int, seen map[ssa.Value]bool) bool {
+	if d > 8 || v == nil || seen[v] || v.Referrers() == nil {
+		return false
+	}
+	seen[v] = true
+	for _, ref := range *v.Referrers() {
+		switch x := ref.(type) {
+		case *ssa.Call:
+			if x.Call.StaticCallee() == a.flushMem {
+				return true
+			}
+			if b, ok := x.Call.Value.(*ssa.Builtin); ok && b.Name() == "append" {
+				if flowsToFlush(c, x, a, d+1, seen) {
+					return true
+				}
+			}
+		case *ssa.Store:
+			if x.Val == v && fieldVarOf(x.Addr) == a.immutableMTs {
+				return true
+			}
+			if x.Val == v {
+				if al, ok := x.Addr.(*ssa.Alloc); ok {
+					for _, r2 := range *al.Referrers() {
+						if ld, ok := r2.(*ssa.UnOp); ok && ld.Op == token.MUL && flowsToFlush(c, ld, a, d+1, seen) {
+							return true
+						}
+					}
+				}
+			}
+		case *ssa.IndexAddr:
+			if flowsToFlush(c, x, a, d+1, seen) {
+				return true
+			}
+		case *ssa.UnOp:
+			if x.Op == token.MUL && flowsToFlush(c, x, a, d+1, seen) {
+				return true
+			}
+		case *ssa.Slice, *ssa.Phi, *ssa.Range, *ssa.Next, *ssa.Extract, *ssa.Index:
+			if flowsToFlush(c, x.(ssa.Value), a, d+1, seen) {
+				return true
+			}
+		}
+	}
+	return false
 }
